@@ -23,7 +23,7 @@ from .repo import Repo
 from .stmts import _same
 from .values import (
     NONE, Arr, Exc, Obj, Opaque, Opt, Poison, Ref, State, Unsupported, VClass, VStr, VTuple, fresh_name, is_boolish,
-    is_num, is_z3, str_of_id, to_z3, zand, znot, zor,
+    is_num, is_z3, str_of_id, to_z3, zand, zimplies, znot, zor,
 )
 
 VERIF = Path(__file__).resolve().parent.parent
@@ -118,12 +118,27 @@ def discharge(ob: Ob, timeout_s: int, use_cvc5=True):
     if isinstance(goal, bool) and goal:
         ob.verdict, ob.backend = "proved", "eval"
         return
+    ob.backend = "z3-" + z3.get_version_string()
+    # attempt 0: relevance filtering (sound: proving from FEWER premises); keeps noisy nonlinear / library facts
+    # that do not share a symbol with the goal out of the solver's way
+    if len(ob.assumptions) > 12:
+        for rounds in (1, 2):
+            sub = relevant(ob.assumptions, to_z3(goal), rounds)
+            if len(sub) == len(ob.assumptions):
+                break
+            s0 = _solver(min(timeout_s, 6) * 1000)
+            for a in sub:
+                s0.add(a)
+            s0.add(z3.Not(to_z3(goal)))
+            if s0.check() == z3.unsat:
+                ob.verdict = "proved"
+                ob.time = time.time() - t0
+                return
     s = _solver(timeout_s * 1000)
     for a in ob.assumptions:
         s.add(a)
     s.add(z3.Not(to_z3(goal)))
     r = s.check()
-    ob.backend = "z3-" + z3.get_version_string()
     if r == z3.unknown:
         # refutation attempt in a small scope: bound every symbolic length by 2 (extra constraints can only
         # remove models, so a `sat` here is a genuine counter-model of the original VC)
@@ -168,6 +183,46 @@ def discharge(ob: Ob, timeout_s: int, use_cvc5=True):
     else:
         ob.verdict = "unknown"
         ob.detail = s.reason_unknown()
+
+
+_sym_cache: dict = {}
+
+
+def symbols(e):
+    k = e.get_id()
+    if k in _sym_cache:
+        return _sym_cache[k]
+    out, todo, seen = set(), [e], set()
+    while todo:
+        x = todo.pop()
+        i = x.get_id()
+        if i in seen:
+            continue
+        seen.add(i)
+        if z3.is_quantifier(x):
+            todo.append(x.body())
+            continue
+        if z3.is_app(x) and x.decl().kind() == z3.Z3_OP_UNINTERPRETED:
+            out.add(x.decl().name())
+        todo.extend(x.children())
+    _sym_cache[k] = out
+    return out
+
+
+def relevant(assumptions, goal, rounds):
+    cur = set(symbols(goal))
+    keep = [False] * len(assumptions)
+    syms = [symbols(a) for a in assumptions]
+    for _ in range(rounds):
+        new = set()
+        for i, sy in enumerate(syms):
+            if not keep[i] and (sy & cur or not sy):
+                keep[i] = True
+                new |= sy
+        if not new - cur:
+            break
+        cur |= new
+    return [a for a, k in zip(assumptions, keep) if k]
 
 
 _len_cache: dict = {}
@@ -546,18 +601,24 @@ def check_outcome(I: Interp, o: Outcome, c, pre: State, invs, fn, selfcls):
     st.env["exc"] = exc
     matched = False
     earlier = []
+    conds = []
     for ent in c.raises:
         w = I.contract_truth(_in_pre(ent["when"]), st)
         same = _exc_is(I, exc, ent, st)
+        cond = zand(w, *[znot(e) for e in earlier])
+        earlier.append(w)
         if isinstance(same, bool) and not same:
-            earlier.append(w)
             continue
         matched = True
-        cond = zand(w, *[znot(e) for e in earlier])
-        I.oblige(st, cond, "X", f"raise-allowed[{_ename(ent)}]", node)
-        for i, e in enumerate(ent.get("ensures", [])):
-            I.oblige(st, I.contract_truth(e, st), "X", f"raise-payload[{_ename(ent)}#{i}]", node)
-        break
+        conds.append((ent, zand(same, cond)))
+    if matched:
+        # some raises-entry of this class must be the applicable one (entries are ordered)
+        I.oblige(st, zor(*[cnd for _, cnd in conds]), "X", f"raise-allowed[{_ename(conds[0][0])}]", node)
+        for ent, cnd in conds:
+            for i, e in enumerate(ent.get("ensures", [])):
+                g = I.contract_truth(e, st)
+                I.oblige(st, g if len(conds) == 1 else zimplies(cnd, g), "X",
+                         f"raise-payload[{_ename(ent)}#{i}]", node)
     if not matched:
         if isinstance(exc.cls, str) and any(I.repo.exc_is_subclass(exc.cls, m) for m in c.may_raise):
             if c.is_cm:
@@ -709,3 +770,34 @@ def _cell_equal(I, st, a, b):
     except Unsupported:
         return False
     return zand(shape_eq, z3.ForAll(idx, z3.Implies(to_z3(rng), to_z3(eq))))
+
+
+def verify_lemma(name, reg, repo, timeout_s=20):
+    """A lemma over contracts only: typed variables, assumptions, goal - all contract expressions."""
+    lm = reg["lemmas"][name]
+    res = FunctionResult(name)
+    res.props = lm.props
+    t0 = time.time()
+    sink = Sink(name)
+    I = Interp(repo, reg, sink)
+    try:
+        st = State()
+        I.frame = Frame("<lemma>", None, None, None, None)
+        for v, t in lm.vars.items():
+            st.env[v] = fresh(t, v, st, I)
+        for a in lm.assumes:
+            st.assume(I.contract_truth(a, st))
+        pre = st.fork()
+        I.frame.pre = pre
+        sink.oblige(st, I.contract_truth(lm.goal, st), "L", "lemma", None, None)
+    except Unsupported as e:
+        res.status, res.reason = "undecided", f"unsupported: {e}"
+        return res
+    res.outcomes = res.feasible_outcomes = 1
+    parallel_discharge(sink.obs, timeout_s, pre)
+    for ob in sink.obs:
+        res.groups[ob.name] = {"verdict": ob.verdict if ob.verdict != "dead" else "vacuous", "backend": [ob.backend],
+                               "time": ob.time, "kind": "L", "lines": [], "instances": 1, "witness": ob.witness,
+                               "detail": ob.detail}
+    res.time = time.time() - t0
+    return res
